@@ -214,8 +214,8 @@ macro_rules! l1_harness {
 const NMAX: usize = 5;
 
 // eat: saves the look-ahead, then every following trivia token; ends on a non-trivia token
-l1_harness!(c01c02_l1_eat, 12, {
-    let mut p = any_state(NMAX);
+fn body_l1_eat(nmax: usize) {
+    let mut p = any_state(nmax);
     let k = cur_index(&p);
     let was_error = p.current == K::Error;
     let errs0 = unsafe { G_ERRS };
@@ -236,10 +236,16 @@ l1_harness!(c01c02_l1_eat, 12, {
     kani::cover!(was_error, "W: Error look-ahead");
     kani::cover!(k == p.token_stream.n, "W: eat at Eof");
     done(p);
+}
+l1_harness!(c01c02_l1_eat, 12, {
+    body_l1_eat(NMAX);
+});
+l1_harness!(c01c02_l1_eat_s, 6, {
+    body_l1_eat(2);
 });
 
-l1_harness!(c01c02_l1_skip, 12, {
-    let mut p = any_state(NMAX);
+fn body_l1_skip(nmax: usize) {
+    let mut p = any_state(nmax);
     let k = cur_index(&p);
     p.skip();
     assert!(inv(&p), "C01: skip re-establishes the invariant");
@@ -248,6 +254,12 @@ l1_harness!(c01c02_l1_skip, 12, {
     assert!(all_trivia_between(&p, k, k2), "C01: skip consumes trivia only");
     kani::cover!(k2 == k + 2, "W: two trivia skipped");
     done(p);
+}
+l1_harness!(c01c02_l1_skip, 12, {
+    body_l1_skip(NMAX);
+});
+l1_harness!(c01c02_l1_skip_s, 6, {
+    body_l1_skip(2);
 });
 
 l1_harness!(c01c02_l1_eat_if, 12, {
@@ -306,8 +318,8 @@ l1_harness!(c01c02_l1_assert, 12, {
     done(p);
 });
 
-l1_harness!(c01c02c17_l1_error_and_eat, 12, {
-    let mut p = any_state(NMAX);
+fn body_l1_error_and_eat(nmax: usize) {
+    let mut p = any_state(nmax);
     let k = cur_index(&p);
     let range0 = (p.current_range.start, p.current_range.end);
     p.error_and_eat("");
@@ -322,6 +334,12 @@ l1_harness!(c01c02c17_l1_error_and_eat, 12, {
         assert!(cur_index(&p) > k, "C02: error_and_eat makes progress");
     }
     done(p);
+}
+l1_harness!(c01c02c17_l1_error_and_eat, 12, {
+    body_l1_error_and_eat(NMAX);
+});
+l1_harness!(c01c02c17_l1_error_and_eat_s, 6, {
+    body_l1_error_and_eat(2);
 });
 
 l1_harness!(c01c02c17_l1_error_and_recover, 12, {
